@@ -219,7 +219,10 @@ def _tier(tier):
 
 def _structs_by_rank(sym, T):
     full = index_structs(CHARGE_SETS[sym], T["maxc"])
-    small = index_structs(T["pool3"][sym], T["maxc3"])
+    maxc3 = T["maxc3"]
+    if T["all_charges"] and sym in ("Z2", "U1", "Z4"):
+        maxc3 = 3  # thorough: the full "<=3 charges per index" box for rank 3
+    small = index_structs(T["pool3"][sym], maxc3)
     return {1: [(s,) for s in full], 2: list(itertools.product(full, repeat=2)), 3: list(itertools.product(small, repeat=3))}
 
 
